@@ -35,9 +35,11 @@ MANIFEST = {
             'pilot, round-robin balance within a batch, and for backfilling '
             'the eligibility window, the high-water mark before each '
             'assignment and usage zero after all tasks finished.'
-            "  Second session: remove commands name several pilots in any order, 'churn' histories remove/re-add often, task notifications include the full intermediate one the agent's output stager sends (TMGR_STAGING_OUTPUT_PENDING with all details); the usage model counts a task from its assignment to its first post-execution notification within one add-period.",
-    'note': 'session sandbox functions are a stub (the oracle checks that the '
-            'sandboxes belong to the bound pilot); valid command sequences '
+            "  Second session: remove commands name several pilots in any order, 'churn' histories remove/re-add often, task notifications include the full intermediate one the agent's output stager sends (TMGR_STAGING_OUTPUT_PENDING with all details); the usage model counts a task from its assignment to its first post-execution notification within one add-period."
+            '  Third session: the session is the real one (constructor aside): sandboxes of forwarded tasks are checked against the bound pilot for default, named (shared by several tasks), nested and absolute task sandboxes.  A second two-thread workload delivers early-bound tasks on the work loop while add_pilots for the named pilots arrives on the subscriber thread (yield before the pilots lock, LINE perturbation of work/control_cb): every such task is forwarded exactly once; threads which do not finish are judged a deadlock only if all of them sit in a lock acquisition with unchanged stacks.',
+    'note': 'the session is the real Session class with only its constructor '
+            'replaced (pilot documents carry their sandbox, as '
+            'Pilot.as_dict() provides it); valid command sequences '
             'only (remove only what was added), as TaskManager enforces.'}
 RULE   = ('seeded histories of 4-30 events over 1-3 pilots and 1-12 tasks for '
           'both schedulers; non-trivial = at least one task had to wait or a '
